@@ -6,6 +6,7 @@ package sched
 
 import (
 	"errors"
+	"runtime"
 	"sync"
 
 	"qchen.fun/fatchoy"
@@ -58,22 +59,29 @@ func (e *ThreadPoolExecutor) Shutdown() {
 }
 
 func (e *ThreadPoolExecutor) start() {
-	var state = e.state.Get()
-	switch state {
-	case fatchoy.StateInit:
-		if e.state.CAS(fatchoy.StateInit, fatchoy.StateStarted) {
-			for i := 0; i < e.nworker; i++ {
-				e.wg.Add(1)
-				go e.worker(i + 1)
+	for {
+		var state = e.state.Get()
+		switch state {
+		case fatchoy.StateInit:
+			if e.state.CAS(fatchoy.StateInit, fatchoy.StateStarted) {
+				for i := 0; i < e.nworker; i++ {
+					e.wg.Add(1)
+					go e.worker(i + 1)
+				}
+				e.state.Set(fatchoy.StateRunning)
+				return
 			}
-			e.state.Set(fatchoy.StateRunning)
+
+		case fatchoy.StateStarted:
+			runtime.Gosched() // another goroutine is starting the workers, wait for it
+
+		case fatchoy.StateRunning:
+			return
+
+		default:
+			log.Panicf("invalid executor state %v", state)
+			return
 		}
-
-	case fatchoy.StateRunning:
-		return
-
-	default:
-		log.Panicf("invalid executor state %v", state)
 	}
 }
 
